@@ -163,12 +163,19 @@ class StairsArray(ExtensionArray):
 
     @Appender(docstrings.make_docstring("array", "agg"), join="\n", indents=1)
     def agg(self, func):
+        with_steps = [sf for sf in self.data if sf.number_of_steps]
+        if not with_steps:
+            return Stairs._new(
+                initial_value=func([s.initial_value for s in self.data]),
+                data=None,
+                closed=self.data[0].closed,
+            )
         index = pd.Index(
             np.unique(
                 np.concatenate(
                     [
                         s.step_changes.index  # using .step_changes.index instead of .step_points to retain timezones
-                        for s in (sf for sf in self.data if sf.number_of_steps)
+                        for s in with_steps
                     ]
                 )
             )
